@@ -40,7 +40,7 @@ pub const NS_FREE_THEMES: [Theme; 9] = [
 
 pub fn pool(theme: Theme, rng: &mut Rng) -> Vec<String> {
     let v: Vec<&str> = match theme {
-        Theme::Plain => vec!["a", "b", "c", "d", "e", "f", "item", "name", "value"],
+        Theme::Plain => vec!["a", "b", "c", "d", "e", "f", "item", "name", "value", "root"],
         Theme::Keywords => {
             let mut v = Vec::new();
             for _ in 0..6 {
@@ -412,7 +412,7 @@ pub fn structured_fault(rng: &mut Rng, valid: &str) -> Vec<u8> {
             *rng.pick(&idx)
         }
     };
-    match rng.below(22) {
+    match rng.below(24) {
         0 => {
             // mismatched end tag
             let p = pos_of(rng, b'/', &b);
@@ -506,6 +506,22 @@ pub fn structured_fault(rng: &mut Rng, valid: &str) -> Vec<u8> {
             if p > 0 && b[p - 1] != b'/' && b[p - 1] != b'?' && b[p - 1] != b'-' && b[p - 1] != b']' {
                 let ins: &[u8] = if rng.chance(1, 2) { b" =\"1\"" } else { b" k=unquoted" };
                 b.splice(p..p, ins.iter().cloned());
+            }
+        }
+        21 | 22 => {
+            // the input ends inside an element that has just been opened (the reader reports no error for that):
+            // after some tag, open an element - called like the parser's own wrapper, or like something else - and stop
+            let p = pos_of(rng, b'>', &b);
+            b.truncate((p + 1).min(len));
+            let name: &[u8] = *rng.pick(&[&b"root"[..], b"root", b"Root", b"r", b"x"]);
+            b.push(b'<');
+            b.extend_from_slice(name);
+            if rng.chance(1, 3) {
+                b.extend_from_slice(b" k=\"v\"");
+            }
+            b.push(b'>');
+            if rng.chance(1, 2) {
+                b.extend_from_slice(b"some text");
             }
         }
         _ => {
